@@ -25,10 +25,13 @@ package fakeprom
 import (
 	"encoding/json"
 	"fmt"
+	"net"
 	"net/http"
 	"net/url"
+	"os"
 	"sort"
 	"strings"
+	"sync/atomic"
 )
 
 // API paths (kept as literals on purpose: independent of pint's constants).
@@ -190,4 +193,22 @@ func QuestionKey(path string, form url.Values) string {
 		}
 	}
 	return b.String()
+}
+
+var listenCounter atomic.Int64
+
+// Listen opens a loopback listener. Servers are created per test case, thousands per minute, and every
+// closed client connection lingers in TIME_WAIT; spreading the servers over 127.0.0.0/8 (all of it is local on
+// Linux) keeps the (src, dst) tuple space far from exhaustion. Falls back to 127.0.0.1.
+func Listen() net.Listener {
+	n := listenCounter.Add(1)
+	addr := fmt.Sprintf("127.%d.%d.%d:0", 1+os.Getpid()%200, (n/250)%250, 1+n%250)
+	if ln, err := net.Listen("tcp4", addr); err == nil {
+		return ln
+	}
+	ln, err := net.Listen("tcp4", "127.0.0.1:0")
+	if err != nil {
+		panic(err)
+	}
+	return ln
 }
